@@ -40,7 +40,7 @@ pub fn random_u32() -> u32 {
 pub mod net {
     pub use std::net::{IpAddr, Ipv4Addr, Ipv6Addr, SocketAddr, SocketAddrV4, SocketAddrV6, ToSocketAddrs};
 
-    pub const LOG: usize = 6;
+    pub const LOG: usize = 4;
 
     #[derive(Clone, Copy)]
     pub struct Sent {
@@ -49,36 +49,39 @@ pub mod net {
         pub head: [u8; 10],   // leading bytes of the datagram
     }
 
-    pub struct SockLog { pub sent: [Sent; LOG], pub n: usize, pub bytes: usize }
+    // Ghost log of transmitted datagrams.  Deliberately scalar-only (no array element writes): with
+    // array-typed ghost state CBMC 6.11 reported spurious deallocation failures in unrelated drop glue.
+    #[derive(Clone, Copy)]
+    pub struct Slot { pub port: u16, pub len: usize, pub lo: u64, pub hi: u16 }
+    pub struct SockLog { pub s0: Slot, pub s1: Slot, pub s2: Slot, pub s3: Slot, pub n: usize, pub bytes: usize }
 
-    // The ghost log lives inside the socket object (interior mutability: send takes &self).
     pub struct UdpSocket { pub log: std::cell::RefCell<SockLog> }
+
+    const EMPTY: Slot = Slot { port: 0, len: 0, lo: 0, hi: 0 };
 
     impl UdpSocket {
         pub fn model() -> Self {
-            UdpSocket { log: std::cell::RefCell::new(SockLog { sent: [Sent { port: 0, len: 0, head: [0; 10] }; LOG], n: 0, bytes: 0 }) }
+            UdpSocket { log: std::cell::RefCell::new(SockLog { s0: EMPTY, s1: EMPTY, s2: EMPTY, s3: EMPTY, n: 0, bytes: 0 }) }
         }
         pub fn sent_n(&self) -> usize { self.log.borrow().n }
         pub fn sent_bytes(&self) -> usize { self.log.borrow().bytes }
-        pub fn sent(&self, i: usize) -> Sent { self.log.borrow().sent[i] }
+        pub fn sent(&self, i: usize) -> Sent {
+            let l = self.log.borrow();
+            let s = if i == 0 { l.s0 } else if i == 1 { l.s1 } else if i == 2 { l.s2 } else { l.s3 };
+            let b = s.lo.to_be_bytes();
+            let h = s.hi.to_be_bytes();
+            Sent { port: s.port, len: s.len, head: [b[0], b[1], b[2], b[3], b[4], b[5], b[6], b[7], h[0], h[1]] }
+        }
 
         fn record(&self, port: u16, data: &[u8]) {
             let mut l = self.log.borrow_mut();
-            let mut head = [0u8; 10];
-            // unrolled (no loop: harness unwind bounds stay small)
-            if data.len() > 0 { head[0] = data[0]; }
-            if data.len() > 1 { head[1] = data[1]; }
-            if data.len() > 2 { head[2] = data[2]; }
-            if data.len() > 3 { head[3] = data[3]; }
-            if data.len() > 4 { head[4] = data[4]; }
-            if data.len() > 5 { head[5] = data[5]; }
-            if data.len() > 6 { head[6] = data[6]; }
-            if data.len() > 7 { head[7] = data[7]; }
-            if data.len() > 8 { head[8] = data[8]; }
-            if data.len() > 9 { head[9] = data[9]; }
+            let g = |k: usize| -> u64 { if data.len() > k { data[k] as u64 } else { 0 } };
+            let lo = (g(0) << 56) | (g(1) << 48) | (g(2) << 40) | (g(3) << 32) | (g(4) << 24) | (g(5) << 16) | (g(6) << 8) | g(7);
+            let hi = ((g(8) as u16) << 8) | g(9) as u16;
+            let slot = Slot { port, len: data.len(), lo, hi };
             let n = l.n;
-            if n < LOG { l.sent[n] = Sent { port, len: data.len(), head }; }
-            l.n += 1;
+            if n == 0 { l.s0 = slot; } else if n == 1 { l.s1 = slot; } else if n == 2 { l.s2 = slot; } else if n == 3 { l.s3 = slot; }
+            l.n = n + 1;
             l.bytes += data.len();
         }
 
@@ -164,35 +167,42 @@ pub mod opaque {
     pub const FLUSH: u8 = 8;
     pub const PENDING_Q: u8 = 9;
 
-    pub const CALLS: usize = 12;
-    pub static mut CALL_LOG: [u8; CALLS] = [0; CALLS];
+    // ghost call log: 4 bits per call, oldest call in the lowest nibble (scalar-only, see SockLog)
+    pub const CALLS: usize = 16;
+    pub static mut CALL_SEQ: u64 = 0;
     pub static mut CALL_N: usize = 0;
-    pub static mut LAST_CONFIG: Option<Config> = None;
     pub static mut NEW_COUNT: u32 = 0;
     pub static mut LAST_PENDING_ANSWER: bool = false;
     pub static mut DELIVERED: u32 = 0;
 
-    pub fn reset() { unsafe { CALL_N = 0; NEW_COUNT = 0; LAST_CONFIG = None; DELIVERED = 0; } }
-    fn log(c: u8) { unsafe { if CALL_N < CALLS { CALL_LOG[CALL_N] = c; } CALL_N += 1; } }
+    pub fn reset() { unsafe { CALL_SEQ = 0; CALL_N = 0; NEW_COUNT = 0; DELIVERED = 0; } }
+    fn log(c: u8) { unsafe { if CALL_N < CALLS { CALL_SEQ |= (c as u64) << (4 * CALL_N); } CALL_N += 1; } }
     pub fn calls() -> usize { unsafe { CALL_N } }
-    pub fn call(i: usize) -> u8 { unsafe { CALL_LOG[i] } }
+    pub fn call(i: usize) -> u8 { unsafe { ((CALL_SEQ >> (4 * i)) & 0xF) as u8 } }
     pub fn count(c: u8) -> usize {
         let mut n = 0;
         let mut i = 0;
-        unsafe { while i < CALL_N && i < CALLS { if CALL_LOG[i] == c { n += 1; } i += 1; } }
+        unsafe { while i < CALL_N && i < CALLS { if ((CALL_SEQ >> (4 * i)) & 0xF) as u8 == c { n += 1; } i += 1; } }
         n
     }
-    pub fn last_config() -> Option<Config> { unsafe { LAST_CONFIG.clone() } }
+    // position of the first occurrence of a call (CALLS if absent)
+    pub fn first(c: u8) -> usize {
+        let mut i = 0;
+        unsafe { while i < CALL_N && i < CALLS { if ((CALL_SEQ >> (4 * i)) & 0xF) as u8 == c { return i; } i += 1; } }
+        CALLS
+    }
 
-    pub struct HalfConnection { pub id: u32 }
+    // The Config the connection was created with is kept inside the object (a static Option<Config> made
+    // CBMC report spurious deallocation failures in unrelated drop glue).
+    pub struct HalfConnection { pub id: u32, pub config: Option<Config> }
 
     impl HalfConnection {
         pub fn new(config: Config) -> Self {
-            unsafe { NEW_COUNT += 1; LAST_CONFIG = Some(config); }
+            unsafe { NEW_COUNT += 1; }
             log(NEW);
-            HalfConnection { id: unsafe { NEW_COUNT } }
+            HalfConnection { id: unsafe { NEW_COUNT }, config: Some(config) }
         }
-        pub fn model() -> Self { HalfConnection { id: 0 } }
+        pub fn model() -> Self { HalfConnection { id: 0, config: None } }
         pub fn rtt_s(&self) -> Option<f64> { None }
         pub fn send_buffer_size(&self) -> usize { kani::any() }
         pub fn is_send_pending(&self) -> bool {
